@@ -410,6 +410,14 @@ def evaluate(chk, cases, tag):
             j = general_judge(cases[i], res[i])
             if j:
                 code, why = 2, "general angle off the high-precision reference: " + j
+        if cases[i]["op"] == "chain" and code != 2 and "rp" in res[i]:
+            # (fourth seeded wave, C12-m12) a rectangle's image is the pair of the images of its corner points, at every angle
+            # (the points themselves are judged above: by the model at right angles, by the reference at general angles)
+            pp = res[i]["p"]
+            for k, rr in enumerate(res[i]["rp"]):
+                if rr != [pp[k], pp[k + 1]]:
+                    code, why = 2, "Rect::transform of the rectangle spanned by points %d, %d gives %s, the images of its corners are %s" % (k, k + 1, rr, [pp[k], pp[k + 1]])
+                    break
         out[i] = (code, res[i], why)
     return out
 
